@@ -63,6 +63,12 @@ impl World {
         let (present, pinned, refused) = (&self.present, &self.pinned, &self.refused);
         self.policy.unpin(&k, &self.bh, |v: &u8| remove_cb(present, pinned, refused, *v));
     }
+    /// an un-pin notification that is processed while the owner has pinned the entry again
+    /// (the pin flag is NOT cleared: maintenance runs later than the notification was sent)
+    fn notify_unpin(&mut self, k: u8) {
+        let (present, pinned, refused) = (&self.present, &self.pinned, &self.refused);
+        self.policy.unpin(&k, &self.bh, |v: &u8| remove_cb(present, pinned, refused, *v));
+    }
     fn trim(&mut self) {
         let (present, pinned, refused) = (&self.present, &self.pinned, &self.refused);
         self.policy.attempt_to_trim_overflowing_pinned(|v: &u8| remove_cb(present, pinned, refused, *v));
@@ -98,12 +104,12 @@ fn remove_cb(present: &[Cell<bool>; NK], pinned: &[Cell<bool>; NK], refused: &Ce
 }
 
 #[derive(Clone, Copy)]
-enum Op { Insert(u8), Read(u8), Remove(u8), Unpin(u8), Trim, Pin(u8) }
+enum Op { Insert(u8), Read(u8), Remove(u8), Unpin(u8), Trim, Pin(u8), Notify(u8) }
 fn any_op() -> Op {
     let t: u8 = kani::any();
     let k: u8 = kani::any();
     kani::assume(k < NK as u8);
-    match t % 6 { 0 => Op::Insert(k), 1 => Op::Read(k), 2 => Op::Remove(k), 3 => Op::Unpin(k), 4 => Op::Trim, _ => Op::Pin(k) }
+    match t % 7 { 0 => Op::Insert(k), 1 => Op::Read(k), 2 => Op::Remove(k), 3 => Op::Unpin(k), 4 => Op::Trim, 5 => Op::Notify(k), _ => Op::Pin(k) }
 }
 fn apply(w: &mut World, op: Op) {
     match op {
@@ -112,6 +118,7 @@ fn apply(w: &mut World, op: Op) {
         Op::Remove(k) => w.remove(k),
         Op::Unpin(k) => w.unpin(k),
         Op::Trim => w.trim(),
+        Op::Notify(k) => w.notify_unpin(k),
         Op::Pin(k) => { if w.present[k as usize].get() { w.pinned[k as usize].set(true); } }
     }
 }
@@ -178,6 +185,8 @@ policy_kind!(c16_q_kind_a_read, 1, [Insert(0), Insert(1)], Read, |w: &World, k: 
 policy_kind!(c16_q_kind_b_insert, 1, [Insert(0), Insert(1), Pin(1), Insert(2)], Insert, |w: &World, _k: u8, before: usize, l: &lru::Lru<u8>| w.refused.get() != 0 && lru::verif::tracked(l) > before, "a pinned victim refused removal and stayed tracked while the new key was admitted");
 policy_kind!(c16_q_kind_b_unpin, 1, [Insert(0), Insert(1), Pin(1), Insert(2)], Unpin, |w: &World, k: u8, _b: usize, _l: &lru::Lru<u8>| w.present[k as usize].get(), "the un-pinned key is still resident");
 policy_kind!(c16_q_kind_b_remove, 1, [Insert(0), Insert(1), Pin(1), Insert(2)], Remove, |w: &World, _k: u8, before: usize, l: &lru::Lru<u8>| lru::verif::tracked(l) < before, "a resident key was removed");
+policy_kind!(c16_q_kind_b_notify, 1, [Insert(0), Insert(1), Pin(1), Insert(2)], Notify, |w: &World, k: u8, _b: usize, l: &lru::Lru<u8>| w.pinned[k as usize].get() && lru::verif::region_of(l, &k) == Some(Region::Pinned), "a stale un-pin notification for an entry that is pinned again: it stays in the Pinned region");
+policy_kind!(c16_q_kind_d_notify, 1, [Insert(0), Insert(1), Pin(1), Insert(2), Remove(0)], Notify, |w: &World, k: u8, _b: usize, _l: &lru::Lru<u8>| w.present[k as usize].get(), "stale un-pin notification with an empty probation region");
 policy_kind!(c16_q_kind_b_trim, 1, [Insert(0), Insert(1), Pin(1), Insert(2)], Trim, |w: &World, _k: u8, before: usize, l: &lru::Lru<u8>| lru::verif::tracked(l) < before || l.pinned_len() > 0, "trim evicted an un-pinned entry or kept a pinned one");
 policy_kind!(c16_q_kind_b_read, 1, [Insert(0), Insert(1), Pin(1), Insert(2)], Read, |w: &World, k: u8, _b: usize, _l: &lru::Lru<u8>| w.present[k as usize].get(), "hit on a resident key");
 policy_kind!(c16_q_kind_c_insert, 2, [Insert(0), Insert(1), Read(0), Insert(2)], Insert, |w: &World, _k: u8, before: usize, l: &lru::Lru<u8>| w.refused.get() != 0 && lru::verif::tracked(l) > before, "a pinned victim refused removal and stayed tracked while the new key was admitted");
@@ -185,7 +194,7 @@ policy_kind!(c16_q_kind_c_unpin, 2, [Insert(0), Insert(1), Read(0), Insert(2)], 
 policy_kind!(c16_q_kind_c_read, 2, [Insert(0), Insert(1), Read(0), Insert(2)], Read, |w: &World, k: u8, _b: usize, _l: &lru::Lru<u8>| w.present[k as usize].get(), "hit on a resident key");
 // D: Pinned region populated and probation emptied (the pre-state of the repaired defect)
 policy_kind!(c16_q_kind_d_unpin, 1, [Insert(0), Insert(1), Pin(1), Insert(2), Remove(0)], Unpin, |w: &World, k: u8, _b: usize, _l: &lru::Lru<u8>| w.present[k as usize].get(), "the un-pinned key is still resident");
-policy_kind!(c16_q_kind_d_insert, 1, [Insert(0), Insert(1), Pin(1), Insert(2), Remove(0)], Insert, |w: &World, _k: u8, before: usize, l: &lru::Lru<u8>| lru::verif::tracked(l) > before && w.refused.get() == 0, "admitted without a duel (the main region had room)");
+policy_kind!(c16_q_kind_d_insert, 1, [Insert(0), Insert(1), Pin(1), Insert(2), Remove(0)], Insert, |w: &World, _k: u8, before: usize, l: &lru::Lru<u8>| lru::verif::tracked(l) > before, "admitted without a duel (the main region had room)");
 
 // capacity 1: window 1, main 1
 policy_h!(c16_t_policy_cap1_empty_2ops, 1, [], 2);
